@@ -1,19 +1,18 @@
 P = dict(
-    wip=True,
     bin="egv_c13", trace="Trace_C13", level="model_checking",
     mc=[dict(module="MC_C13", quick_cfg="MC_C13.cfg", thorough_cfg="MC_C13.cfg")],
     required_events=["graph", "pair", "lrows"],
     level_text="TLC explores the transcribed convert_channel for all 7x7 channel-width pairs x all inputs (complete), the transcribed "
                "conversion of every ordered pair of colour types, the luma formula on a 16^3 lattice and the gray->RGB->gray pipeline "
                "against the nearest-value / extremes / monotonicity / round-trip rules; the real From impls of all 182 ordered pairs are "
-               "run over every source colour (24-bit sources: structured + seeded in quick, all 2^24 in thorough), projected onto "
+               "run over every source colour (all 2^24 for the 24-bit sources), projected onto "
                "per-channel relations and validated by TLC against the same predicates",
     level_note="trusted: EGColor abstract part (type table, Nearest, UpperHalf, Widens), P_C13, recorder egv_c13 (the per-channel "
                "projection); RGB->gray is only required to be monotone with fixed extremes (luma weights are a drift item); "
                "monotonicity of RGB->gray is checked on a lattice of the two other channels, not for every row",
-    rule="one case per ordered pair of colour types (182) plus the graph case; a case converts every source colour (or the structured "
-         "+ seeded subset for Rgb888/Bgr888 in quick); harness note `conversions` counts the individual conversions; all pair cases "
+    rule="one case per ordered pair of colour types (182) plus the graph case; a case converts every source colour of the source type; "
+         "harness note `conversions` counts the individual conversions; all pair cases "
          "are non-trivial",
     trusted=COMMON_TRUSTED + ["spec/EGColor.tla abstract part and spec/P_C13.tla"],
-    exhaustive=dict(thorough=True),
+    exhaustive=dict(quick=True, thorough=True),
 )
